@@ -37,7 +37,7 @@ def by_id():
 
 # ------------------------------------------------------------------------------------------- C02
 U(id="C02.mbi", props=["C02", "C03", "C06"], file="xz.rs",
-  harnesses=["c02_mbi_roundtrip"] + ["c06_mbi_parse_total_%d" % n for n in range(11)], canaries=["c02_mbi_canary"],
+  harnesses=["c02_mbi_roundtrip"] + ["c06_mbi_parse_total_%d" % n for n in range(11)] + ["c02_mbi_class_%d" % k for k in range(1, 10)], canaries=["c02_mbi_canary"],
   functions=[("src/xz.rs", "encode_multibyte_integer"), ("src/xz.rs", "parse_multibyte_integer"),
              ("src/xz.rs", "parse_multibyte_integer_from_reader"), ("src/xz.rs", "count_multibyte_integer_size"),
              ("src/xz.rs", "count_multibyte_integer_size_for_value")],
@@ -50,3 +50,29 @@ U(id="C02.lzip.dict", props=["C02", "C03", "C19"], file="lzip.rs",
   harnesses=["c02_lzip_dict_roundtrip", "c06_lzip_dict_decode_total"], canaries=["c02_lzip_dict_canary"],
   functions=[("src/lzip.rs", "encode_dict_size"), ("src/lzip.rs", "decode_dict_size")],
   contract="forall d:u32: encode Ok <=> 4KiB<=d<=512MiB; decode(encode(d)) >= d and < 2d; decode total on all 256 bytes and = lzip spec")
+
+U(id="C02.xz.shdr", props=["C02", "C03", "C04"], file="xz/writer.rs", extra_files=["xz/reader.rs"],
+  harnesses=["c02_xz_stream_header_" + c for c in ("none", "crc32", "crc64", "sha256")],
+  functions=[("src/xz/writer.rs", "write_stream_header"), ("src/xz/reader.rs", "parse", "StreamHeader"),
+             ("src/xz/reader.rs", "parse_flags_and_crc", "StreamHeader")],
+  contract="for each check type: 12 header bytes = magic,0,check,crc32le(flags); idempotent; parse returns the same check type")
+
+U(id="C02.xz.index", props=["C02", "C03"], file="xz/writer.rs", extra_files=["xz/reader.rs"],
+  harnesses=['c02_xz_index_footer_n0_1_1', 'c02_xz_index_footer_n1_1_1', 'c02_xz_index_footer_n1_2_1', 'c02_xz_index_footer_n1_3_3', 'c02_xz_index_footer_n1_9_9', 'c02_xz_index_footer_n1_5_4', 'c02_xz_index_footer_n2_2_3'],
+  kind="bounded", bound="record count <= 2; 7 of the 81 (len(unpadded),len(uncompressed)) encoded-length classes, all values inside each class",
+  contract_stubs=["encode_multibyte_integer -> class-k contract (proved in C02.mbi c02_mbi_class_k)"],
+  functions=[("src/xz/writer.rs", "write_index"), ("src/xz/writer.rs", "write_stream_footer"),
+             ("src/xz/reader.rs", "parse", "Index"), ("src/xz/reader.rs", "parse", "StreamFooter")],
+  contract="index with n records of arbitrary 63-bit sizes parses back to the same records, reader consumes exactly the written bytes; "
+           "(backward_size+1)*4 = index size; footer flags = header flags; magic YZ")
+
+U(id="C02.xz.index.r", props=["C02", "C03", "C04"], file="xz/reader.rs", extra_files=["xz.rs"],
+  harnesses=["c02_xz_index_parse_n%d_%d_%d" % c for c in [(0,1,1),(1,1,1),(1,2,3),(1,9,9),(1,5,4),(2,2,3)]],
+  kind="bounded", bound="record count <= 2; 6 encoded-length classes, all values inside each class",
+  functions=[("src/xz/reader.rs", "parse", "Index")],
+  contract="Index::parse accepts the spec index (xz-file-format 4) and returns exactly its records, consuming exactly its bytes")
+U(id="C04.xz.hdrs", props=["C04", "C06", "C02", "C03"], file="xz/reader.rs", extra_files=["xz.rs"],
+  harnesses=["c04_xz_footer_parse_any", "c04_xz_header_parse_any"],
+  functions=[("src/xz/reader.rs", "parse", "StreamFooter"), ("src/xz/reader.rs", "parse", "StreamHeader"),
+             ("src/xz/reader.rs", "parse_flags_and_crc", "StreamHeader")],
+  contract="forall 12 bytes: Ok <=> magic, reserved flag byte 0, supported check id, crc field = crc_fn(covered bytes); fields returned verbatim; all 12 bytes consumed")
